@@ -3,7 +3,8 @@
  * of {dont_fragment, dont_compress, dont_deduplicate, nosparse} (16), in
  * forward and reverse order, with and without blanks around the keywords,
  * combined with every glob variant (none, glob, glob_no_path, both in either
- * order) - 320 concrete lines executed symbolically (the text is concrete, so
+ * order) - 320 concrete lines (driver: one run per glob variant and block of
+ * subsets) executed symbolically (the text is concrete, so
  * this is an exhaustive evaluation of the real decoder, with all memory
  * checks), plus the malformed shapes.
  *
@@ -210,19 +211,23 @@ void harness(void)
 #ifndef PART
 #define PART 0
 #endif
-#if PART == 0
-	for (m = 0; m < 16; ++m) {
-		for (g = 0; g < 5; ++g) {
-			one_line(m, g, false, false);
-			one_line(m, g, true, true);
-		}
-	}
-#elif PART == 1
-	for (m = 0; m < 16; ++m) {
-		for (g = 0; g < 5; ++g) {
-			one_line(m, g, true, false);
-			one_line(m, g, false, true);
-		}
+#ifndef VARIANTS
+#define VARIANTS 2
+#endif
+#ifndef MLO
+#define MLO 0
+#define MHI 15
+#endif
+#if PART < 10
+	/* PART = glob variant (0..4); MLO..MHI = keyword subsets of this run */
+	for (m = MLO; m <= MHI; ++m) {
+		g = PART;
+		one_line(m, g, false, false);
+		one_line(m, g, true, true);
+#if VARIANTS >= 4
+		one_line(m, g, true, false);
+		one_line(m, g, false, true);
+#endif
 	}
 #else
 	/* no list at all */
